@@ -57,6 +57,22 @@ def check_list_removal(rep, rule, m, fname, must_free=True, _depth=0):
                                 "live one" % (fname, why_not), where=fr[3])
                     rule.fail()
                 continue
+            # the open-coded pop of the first node: n = H.next; H.next = n->next; ... free(container_of(n))
+            hm = re.match(r"^\((.+(?:\.|->)next)@(\d+) - &NULL->\w+\)$", tag)
+            if hm and not pm and not lm:
+                link = hm.group(1)
+                before = tr[:tr.index(fr)] if fr in tr else tr
+                unl = [e for e in before if e[0] == "store" and e[1] == link and e[2] == "=" and e[3] == link + "->next"
+                       and str(e[4]).endswith(":" + hm.group(2))]
+                if unl:
+                    rule.instance("%s: frees %s after '%s = %s->next'" % (fname, tag, link, link))
+                    if matched and link[:-len("->next")] not in matched and link[:-len(".next")] not in matched:
+                        rep.finding(rule, fname, "list-remove:wrong-node", "%s: the node matched follows '%s' but the node unlinked "
+                                    "and recycled follows '%s'" % (fname, matched[-1], link), where=fr[3])
+                        rule.fail()
+                    else:
+                        rule.ok()
+                    continue
             if mm:
                 pos = mm.group(1)
                 ok = any(p[2][0] == pos for p in pops)
